@@ -12,7 +12,7 @@ func init() {
 	register(&Spec{
 		ID:          "C11",
 		Loads:       []LoadSpec{{Patterns: []string{"./brontide"}}},
-		Explanation: "Decides the typestate of the cipher state (the nonce is written only by the post-use increment and the reset in InitializeKey; key, nonce reset and AEAD instance change together; both directions rotate at keyRotationInterval = 1000 through the salted ratchet), that Seal/Open are reached only through Encrypt/Decrypt whose increment is deferred before the AEAD call, that the responder's key split is the mirror image of the initiator's with both ciphers salted by the chaining key, that each handshake act succeeds only after the version check and every DecryptAndHash, that a message is framed only within the 16-bit length and with nothing unflushed, that Flush advances each buffer by exactly what the writer accepted, header first, and that Conn.Write accounts every flushed byte before it returns.",
+		Explanation: "Decides the typestate of the cipher state (the nonce is written only by the post-use increment and the reset in InitializeKey; key, nonce reset and AEAD instance change together; both directions rotate at keyRotationInterval = 1000 through the salted ratchet), that Seal/Open are reached only through Encrypt/Decrypt whose increment is deferred before the AEAD call, that the responder's key split is the mirror image of the initiator's with both ciphers salted by the chaining key, that each handshake act succeeds only after the version check and every DecryptAndHash, that a message is framed only within the 16-bit length and with nothing unflushed, that Flush advances each buffer by exactly what the writer accepted, header first, that Conn.Write accounts every flushed byte before it returns, that ReadHeader/ReadBody hand only complete frames to the cipher and keep the progress of a read exactly across a deadline (resumed at the remembered offset, cleared on every other exit), that pending ciphertext is dropped only when nothing is pending, that Accept returns an untyped nil connection with every error, and that the listener and Dial close every connection they drop.",
 		NotDecided: []string{
 			"authenticity and confidentiality (rest on ChaCha20-Poly1305 and the Noise pattern)", "byte equality end to end under fragmentation",
 			"the plaintext byte accounting arithmetic of Flush (start/end vs macSize) beyond its three-region shape",
@@ -235,8 +235,8 @@ func runC11(r *an.Run) {
 		})
 
 	r.Obl("framing-and-flush", "PATH",
-		"Machine.WriteMessage encrypts only below len(p) <= 65535 and with no header/body pending; header is encrypted before the body; Flush writes the header before the body and advances each pending buffer by exactly the n its Write returned; ReadHeader computes the body length as uint16 length + macSize; Conn.Write adds every Flush result to its byte count before returning",
-		"bytes must arrive exactly once and in order across partial writes: a count that misses flushed bytes makes the caller resend them inside authenticated records", 10,
+		"Machine.WriteMessage encrypts only below len(p) <= 65535 and with no header/body pending; header is encrypted before the body; Flush writes the header before the body and advances each pending buffer by exactly the n its Write returned; ReadHeader answers either with uint16 length + macSize computed from a header it read in full (io.ReadFull without error, only while nextBodyLen == 0) and decrypted successfully, or, only where nextBodyLen != 0 (the body of an already consumed header was interrupted by a deadline), with that remembered nextBodyLen and without reading or decrypting anything; Conn.Write adds every Flush result to its byte count before returning",
+		"bytes must arrive exactly once and in order across partial writes and interrupted reads: a count that misses flushed bytes makes the caller resend them inside authenticated records; a header read while a body is pending takes ciphertext of the body for a header", 10,
 		func(o *an.Obl) {
 			f := p.Func(br + "Machine.WriteMessage")
 			enc := f.Calls(an.CalleeIs(br+"cipherState.Encrypt"), false)
@@ -284,14 +284,41 @@ func runC11(r *an.Run) {
 				_ = hdrErr
 			}
 			rh := p.Func(br + "Machine.ReadHeader")
+			pending := an.Field(br+"Machine", "nextBodyLen", an.Recv())
+			rfH := rh.Calls(an.CalleeIs("io.ReadFull"), false)
+			decH := rh.Calls(an.CalleeIs(br+"cipherState.Decrypt"), false)
+			var fresh, resumed []an.Site
 			for _, s := range rh.StrictSuccessReturns() {
-				c := rh.Canon(s.Node.(*ast.ReturnStmt).Results[0])
+				res := ast.Unparen(s.Node.(*ast.ReturnStmt).Results[0])
+				c := rh.Canon(res)
 				o.Site("ReadHeader returns %s", c)
+				if pending(rh, res) {
+					// the length of a body whose read a deadline interrupted
+					resumed = append(resumed, s)
+					continue
+				}
+				fresh = append(fresh, s)
 				if !strings.HasPrefix(c, "(uint32(encoding/binary.BigEndian.Uint16(") || !strings.HasSuffix(c, "+ brontide.macSize)") {
-					o.FailAt(rh.ID+"#length", s.Where(), "the body length is %s, expected uint32(uint16 length) + macSize", c)
+					o.FailAt(rh.ID+"#length", s.Where(), "the body length is %s, expected uint32(uint16 length) + macSize (or the remembered length of the interrupted body, nextBodyLen)", c)
 				}
 			}
-			mustPass(o, rh, "recvCipher.Decrypt", rh.Calls(an.CalleeIs(br+"cipherState.Decrypt"), false), an.OkErrNil, rh.StrictSuccessReturns())
+			mustPass(o, rh, "recvCipher.Decrypt", decH, an.OkErrNil, fresh)
+			mustPass(o, rh, "io.ReadFull", rfH, an.OkErrNil, fresh)
+			// a header is taken from the stream only while no body is pending
+			guardedAll(o, rh, rfH, an.AnyOf("nextBodyLen == 0 (no interrupted body pending)",
+				an.Cmp(pending, an.EQ, an.IntConst(0), ""), an.CmpX(pending, an.LE, an.IntConst(0), "")))
+			if len(resumed) == 0 {
+				o.FailAt(rh.ID+"#no-resume-of-pending-body", rh.Where(rh.Body.Pos()), "ReadHeader never answers with the remembered length nextBodyLen: after a body read that a deadline interrupted the next call would take body bytes for a header")
+			}
+			for _, s := range resumed {
+				guarded(o, rh, s, an.Cmp(pending, an.NE, an.IntConst(0), "nextBodyLen != 0 (an interrupted body is pending)"))
+				// the stored length is handed out without touching stream or cipher
+				for _, t := range append(append([]an.Site{}, rfH...), decH...) {
+					if t.V == s.V || rh.Graph().Reach(t.V, nil, nil)[s.V] {
+						o.FailAt(rh.ID+"#resume-touches-stream", s.Where(), "the remembered body length is returned after %s: the header of that body was consumed already, reading or decrypting again desynchronises stream and nonce", an.Text(t.Node))
+					}
+				}
+			}
 			cw := p.Func(br + "Conn.Write")
 			var loopFlush []an.Site
 			for _, s := range cw.Calls(an.CalleeIs(br+"Machine.Flush"), false) {
@@ -317,14 +344,14 @@ func runC11(r *an.Run) {
 		})
 
 	r.Obl("frames-read-in-full", "ROLE",
-		"every fixed-size piece of the protocol is read with io.ReadFull from the connection: the three handshake acts (actTwo in Dial; actOne and actThree in the listener's handshake), the 18-byte encrypted length header into nextCipherHeader and the body into the caller's buffer; no function of the package calls Read directly on a reader or connection it was handed",
-		"a plain Read may return fewer bytes than the frame: a header or act that arrives in two TCP segments is then decrypted from a half-filled buffer and the connection fails although nothing was altered", 5,
+		"every fixed-size piece of the protocol is read with io.ReadFull from the connection: the three handshake acts (actTwo in Dial; actOne and actThree in the listener's handshake), the 18-byte encrypted length header into nextCipherHeader from the remembered offset nextHeaderRead to its end, and the body into the caller's buffer behind the copy of the remembered bytes nextBodyRead (buf[copy(buf, nextBodyRead):]); ReadHeader and ReadBody decrypt only after that io.ReadFull returned without error, and decrypt the whole buffer (nextCipherHeader[:] resp. buf), never the part filled so far; no function of the package calls Read directly on a reader or connection it was handed",
+		"a plain Read may return fewer bytes than the frame: a header or act that arrives in two TCP segments is then decrypted from a half-filled buffer and the connection fails although nothing was altered; a read that is resumed after a deadline from offset 0 instead of the remembered offset overwrites the consumed bytes with later ones, and a partial frame handed to the cipher burns a nonce on a record that cannot authenticate", 5,
 		func(o *an.Obl) {
 			want := map[string][]string{
 				"brontide.Dial":                 {"[50]byte[:]"},
 				"brontide.Listener.doHandshake": {"[50]byte[:]", "[66]byte[:]"},
-				"brontide.Machine.ReadBody":     {"$p1"},
-				"brontide.Machine.ReadHeader":   {"$recv.nextCipherHeader[:]"},
+				"brontide.Machine.ReadBody":     {"$p1[copy($p1, $recv.nextBodyRead):]"},
+				"brontide.Machine.ReadHeader":   {"$recv.nextCipherHeader[$recv.nextHeaderRead:]"},
 			}
 			got := map[string][]string{}
 			for _, f := range p.Funcs(false, "brontide") {
@@ -347,6 +374,22 @@ func runC11(r *an.Run) {
 						}
 					}
 				}
+			}
+			// the full frame, and only the full frame, reaches the cipher
+			for fn, whole := range map[string]string{"brontide.Machine.ReadHeader": "$recv.nextCipherHeader[:]", "brontide.Machine.ReadBody": "$p1"} {
+				f := p.Func(fn)
+				rf := f.Calls(an.CalleeIs("io.ReadFull"), false)
+				dec := f.Calls(an.CalleeIs(br+"cipherState.Decrypt"), false)
+				if !need(o, f, "recvCipher.Decrypt", dec, 1) {
+					continue
+				}
+				mustPass(o, f, "io.ReadFull", rf, an.OkErrNil, dec)
+				for _, d := range dec {
+					if a := f.ArgCanon(d); len(a) != 3 || a[2] != whole {
+						o.FailAt(fn+"#decrypts-whole-frame", d.Where(), "%s decrypts %v, expected the whole frame %s", fn, a, whole)
+					}
+				}
+				notReassigned(o, f, c11f5ParamNames(f)...)
 			}
 			for fn, bufs := range want {
 				g := append([]string{}, got[fn]...)
